@@ -635,6 +635,24 @@ class VCGen:
             return f(RNE(), a, b), FP
         if t == BOOL:
             raise Unsupported('arithmetic on bool')
+        if t == INT and op in (ast.Add, ast.Sub, ast.Mult):
+            # integer arithmetic is put into z3's normal form (n*4 and 4*n become the same term): code and contract then build
+            # syntactically equal arguments for uninterpreted functions, which E-matching needs
+            if op is ast.Mult:
+                sa_, sb_ = simplify(a), simplify(b)
+                if is_int_value(sb_) and not is_int_value(sa_):
+                    return (a if sb_.as_long() == 1 else sb_ * a), t       # constant factor first; 1 * x is x
+                if is_int_value(sa_) and sa_.as_long() == 1:
+                    return b, t
+                return a * b, t
+            if op is ast.Add:
+                sa_, sb_ = simplify(a), simplify(b)
+                if is_int_value(sa_) and sa_.as_long() == 0:
+                    return b, t
+                if is_int_value(sb_) and sb_.as_long() == 0:
+                    return a, t
+                return a + b, t
+            return a - b, t
         if op is ast.Add:
             return a + b, t
         if op is ast.Sub:
@@ -669,19 +687,30 @@ class VCGen:
         k = fresh_int('k')
         na, nb = L_len(a, ta), L_len(b, tb)
         st.pc.append(L_len(r, ta) == na + nb)
-        st.pc.append(ForAll([k], Implies(And(0 <= k, k < na), L_arr(r, ta)[k] == L_arr(a, ta)[k])))
-        st.pc.append(ForAll([k], Implies(And(0 <= k, k < nb), L_arr(r, ta)[na + k] == L_arr(b, tb)[k])))
+        # triggers on the OPERANDS' elements: whenever a[k] / b[k] is mentioned, its place in the concatenation is known
+        st.pc.append(ForAll([k], Implies(And(0 <= k, k < na), L_arr(r, ta)[k] == L_arr(a, ta)[k]), patterns=[L_arr(a, ta)[k]]))
+        st.pc.append(ForAll([k], Implies(And(0 <= k, k < nb), L_arr(r, ta)[na + k] == L_arr(b, tb)[k]), patterns=[L_arr(b, tb)[k]]))
+        # ... and whenever r[k] is mentioned, which operand it comes from
+        st.pc.append(ForAll([k], Implies(And(0 <= k, k < na + nb), L_arr(r, ta)[k] == If(k < na, L_arr(a, ta)[k], L_arr(b, tb)[k - na])), patterns=[L_arr(r, ta)[k]]))
         return r, ta
 
     def list_repeat(s, a, ta, n, st):
+        consts = s.cur.setdefault('_const_lists', [])
+        known = [x for (lst, x) in consts if lst.eq(a)]
         sa = simplify(L_len(a, ta))
-        if not (is_int_value(sa) and sa.as_long() == 1):
-            raise Unsupported('list * int with non-singleton list')
-        x = simplify(L_arr(a, ta)[0])
+        if known:                       # ([x] * n) * m: still a list of x's, of length n * m
+            x = known[0]
+            total = L_len(a, ta) * n
+        elif is_int_value(sa) and sa.as_long() == 1:
+            x = simplify(L_arr(a, ta)[0])
+            total = n
+        else:
+            raise Unsupported('list * int with a list that is not a repetition of one element')
         r = fresh('rep', ta)
         k = fresh_int('k')
-        st.pc.append(L_len(r, ta) == If(n >= 0, n, 0))
-        st.pc.append(ForAll([k], Implies(And(0 <= k, k < n), L_arr(r, ta)[k] == x)))
+        st.pc.append(L_len(r, ta) == If(total >= 0, total, 0))
+        st.pc.append(ForAll([k], Implies(And(0 <= k, k < L_len(r, ta)), L_arr(r, ta)[k] == x)))
+        consts.append((r, x))
         return r, ta
 
     def ev_UnaryOp(s, e, st):
@@ -1050,6 +1079,11 @@ class VCGen:
                 if nm == 'truthy':
                     a, ta = s.ev(e.args[0], st)
                     return s.truthy(a, ta, st), BOOL
+                if nm == 'some_int':
+                    a_, _ = s.ev(e.args[0], st)
+                    return opt_some(OPT(INT), a_), OPT(INT)
+                if nm == 'none_int':
+                    return opt_none(OPT(INT)), OPT(INT)
                 if nm == 'toval':
                     a_, ta_ = s.ev(e.args[0], st)
                     return s.to_val(a_, ta_), VAL
@@ -1427,6 +1461,10 @@ class VCGen:
             hyp = [c for c in st2.pc[len(st.pc):]]
             st.pc.append(ForAll([k], Implies(And(*hyp), body)))
             return r, rt
+        if spec_ is None and len(e.generators) == 2 and not e.generators[0].ifs and not e.generators[1].ifs \
+                and isinstance(e.generators[1].iter, ast.Name) and isinstance(e.generators[0].target, ast.Name) \
+                and e.generators[1].iter.id == e.generators[0].target.id:
+            return s.flatten_comp(e, st)
         if spec_ is None:
             raise Unsupported(f'list comprehension #{ordn} at line {e.lineno} needs a `comps` entry in the contract')
         if len(e.generators) != 1:
@@ -1480,6 +1518,33 @@ class VCGen:
                 s.oblige(t2, f'hint-comp#{ordn}.{k}', s.spec_eval(h, t2, 1), e.lineno, 'hint')
                 st.pc.append(s.spec_eval(h, st, -1))
         return res, rt
+
+    def flatten_comp(s, e, st):
+        """[elt for sub in L for x in sub]: result[FlatOff(L, a) + b] = elt(L[a][b]), len = FlatOff(L, len(L)); FlatOff is the
+        prefix sum of the row lengths (defining equation unfolded like any spec function)"""
+        g0, g1 = e.generators
+        L, tL = s.ev(g0.iter, st)
+        if tL.k != 'list' or tL.a[0].k != 'list':
+            raise Unsupported('flatten of a non-nested list')
+        row_t = tL.a[0]
+        nm = 'FlatOff_' + sha(repr(tL))
+        if nm not in SPEC:
+            f = Function(nm, sort(tL), IntSort(), IntSort())
+            SPEC[nm] = dict(f=f, args=[tL, INT], ret=INT, unfold=lambda L_, a_, f=f, tL=tL, row_t=row_t: f(L_, a_) == If(a_ <= 0, IntVal(0), f(L_, a_ - 1) + L_len(L_arr(L_, tL)[a_ - 1], row_t)))
+        F = SPEC[nm]['f']
+        a, b = Int(f'a!f{next(Ty._fresh)}'), Int(f'b!f{next(Ty._fresh)}')
+        st2 = st.clone()
+        row = L_arr(L, tL)[a]
+        s.assign(g0.target, row, row_t, st2, None)
+        s.assign(g1.target, L_arr(row, row_t)[b], row_t.a[0], st2, None)
+        v, t = s.ev(e.elt, st2)
+        rt = LIST(t)
+        r = fresh('flat', rt)
+        st.pc.append(L_len(r, rt) == F(L, L_len(L, tL)))
+        st.pc.append(ForAll([a, b], Implies(And(0 <= a, a < L_len(L, tL), 0 <= b, b < L_len(row, row_t)), L_arr(r, rt)[F(L, a) + b] == v),
+                            patterns=[L_arr(row, row_t)[b]]))      # trigger: a mention of the source element L[a][b]
+        st.env['__flat_src'] = (L, tL)
+        return r, rt
 
     def listeq_goal(s, a, b, t):
         if s.cur.get('comp_structural', True):
@@ -1576,6 +1641,10 @@ class VCGen:
                 if {ot, t} <= {INT, REAL}:
                     raise Unsupported(f'local {tg.id} changes numeric type: declare it REAL in `locals`')
                 raise Unsupported(f'local {tg.id} changes type {ot} -> {t}')
+            if t == INT and not s.specmode and _is_nonlinear_product(v):
+                nm_ = fresh(tg.id, INT)          # name a product of variables once: later offsets k * n are then linear in that name
+                st.pc.append(nm_ == v)
+                v = nm_
             st.env[tg.id] = (v, t)
             st.unbound.discard(tg.id)
             if '__b_' + tg.id in st.env:
@@ -1712,6 +1781,13 @@ class VCGen:
             return s.call_stmt(n.value, n.targets[0], st, n.lineno)
         v, t = s.ev(n.value, st)
         s.assign(n.targets[0], v, t, st, n.lineno)
+        if isinstance(n.targets[0], ast.Name):
+            for u in s.cur.get('use_after_assign', {}).get(n.targets[0].id, []):      # lemma instances available from here on
+                n0_ = len(st.pc)
+                s.use_lemma(st, u)
+                s.cur.setdefault('_kept_hyps', []).extend(st.pc[n0_:])
+            for k_, h in enumerate(s.cur.get('hints_after_assign', {}).get(n.targets[0].id, [])):   # proved here, where the context is small
+                s.hint(st, h, f'hint-assign:{n.targets[0].id}#{k_}', n.lineno)
         return [st]
 
     def st_AugAssign(s, n, st):
@@ -1719,6 +1795,38 @@ class VCGen:
         if isinstance(n.op, ast.Add):
             cur, tcur = s.ev(tgt_load, st)
             if tcur.k == 'list':     # list += list : in place extend (value model: same as rebinding)
+                if isinstance(n.value, ast.Call) and isinstance(n.value.func, ast.Name) and s.resolve_function(n.value.func.id):
+                    # x += f(...): evaluate the call as a statement (its after_call assertions apply), then extend
+                    tmp = ast.copy_location(ast.Name(id='__addend', ctx=ast.Store()), n)
+                    outs = s.call_stmt(n.value, tmp, st, n.lineno)
+                    res = []
+                    for t_ in outs:
+                        b, tb = t_.env['__addend']
+                        cur2, tcur2 = s.ev(tgt_load, t_)
+                        v, t = s.list_concat(cur2, tcur2, b, tb, t_)
+                        s.assign(n.target, v, t, t_, n.lineno)
+                        occ_ = s.cur.setdefault('_extend_occ', [0])
+                        hints_ = s.cur.get('after_extend', {}).get(occ_[0], [])
+                        if hints_:
+                            # each assertion is proved from a small context: quantifier-free facts, lemma instances registered with
+                            # use_after_assign, what was learnt since the previous extension (callee postcondition, concatenation facts)
+                            # and the assertions proved after the previous extension
+                            mark = s.cur.get('_extend_mark', 0)
+                            small = [h0 for h0 in t_.pc[:mark] if not _has_quant(h0)] + s.cur.get('_kept_hyps', []) + t_.pc[mark:]
+                            proved_ = []
+                            for k_, h in enumerate(hints_):
+                                t2 = t_.clone()
+                                t2.pc = list(small)
+                                s.oblige(t2, f'hint-extend#{occ_[0]}.{k_}', s.spec_eval(h, t2, 1), n.lineno, 'hint')
+                                hv = s.spec_eval(h, t_, -1)
+                                proved_.append(hv)
+                            t_.pc += proved_
+                            s.cur['_kept_hyps'] = [h0 for h0 in s.cur.get('_kept_hyps', []) if h0.get_id() not in {p_.get_id() for p_ in s.cur.get('_last_hints', [])}] + proved_
+                            s.cur['_last_hints'] = proved_
+                            s.cur['_extend_mark'] = len(t_.pc)
+                        occ_[0] += 1
+                        res.append(t_)
+                    return res
                 b, tb = s.ev(n.value, st)
                 v, t = s.list_concat(cur, tcur, b, tb, st)
                 s.assign(n.target, v, t, st, n.lineno)
@@ -2223,7 +2331,12 @@ class VCGen:
         for kind, t, v, ty in outs:
             if kind == 'ok' and target is not None:
                 s.assign(target, v, ty, t, line)
-            ac = s.cur.get('after_call', {}).get(q.split('.', 1)[1])
+            short = q.split('.', 1)[1]
+            occ = s.cur.setdefault('_call_occ', {})
+            if kind == 'ok' or len(outs) == 1:
+                occ[short] = occ.get(short, 0) + (1 if kind == 'ok' else 0)
+            acs = s.cur.get('after_call', {})
+            ac = acs.get(f'{short}#{occ.get(short, 1) - 1}') or acs.get(short)
             if ac and (kind == 'ok' or ac.get('also_on_raise')):
                 # intermediate assertions after this call: each proved (with the named lemma instances), then assumed
                 for k, h in enumerate(ac.get('hints', [])):
@@ -2558,6 +2671,12 @@ def _patterns_for(k, f):
             walk(c)
     walk(f)
     return list(found.values())[:6]
+
+
+def _is_nonlinear_product(v):
+    from z3 import is_mul
+    v = simplify(v)
+    return is_mul(v) and sum(1 for c in v.children() if not is_int_value(c)) >= 2
 
 
 def _has_quant(e):
